@@ -263,6 +263,13 @@ def parseMember (shared : List (Nat × String)) (code0 : String) (c : Ctx) : Opt
   else if two == "vl" || two == "vd" then
     let (i, c') := c.newContainer (parseDots rest2)
     some (some (.value i), c')
+  else if one == "n" then
+    -- n<form><class><a.b>: the default kind is INFERRED from the default value (`_infer_default_value_type`): an
+    -- instance of list or of a list subclass gives a per-object list copy, of dict or a dict subclass (OrderedDict,
+    -- defaultdict, Counter, …) a per-object dict copy; the trait accepts containers only
+    let cls := ((code.drop 2).take 1).toString
+    copyKind (if cls == "l" || cls == "h" then Generated.LIST_COPY_DEFAULT_VALUE else Generated.DICT_COPY_DEFAULT_VALUE)
+      (some 0) (code.drop 3).toString
   else if one == "c" then (rest1.toNat?).map fun v => (some (.trait { anyCore with dv := some v }), c)
   else if one == "v" then (rest1.toNat?).map fun v => (some (.value v), c)
   else if one == "L" then copyKind Generated.TRAIT_LIST_OBJECT_DEFAULT_VALUE (some 0) rest1
